@@ -2,7 +2,7 @@
 import numpy as np
 from hypothesis import strategies as st
 
-from pbt.samples import call, raised, build, sample_spec, expand, fingerprint, fp_diff
+from pbt.samples import derived_from_used_parent, call, raised, build, sample_spec, expand, fingerprint, fp_diff
 
 ID = 'C03'
 LEVEL = 'exploration'
@@ -29,7 +29,7 @@ GAIN = st.one_of(st.sampled_from([1.0, 2.0, 0.5, 16.0]), st.floats(0.1, 50.0))
 
 
 @st.composite
-def base_sample(draw, max_d=6, max_n=20):
+def base_sample(draw, max_d=6, max_n=40):
     spec = draw(sample_spec(min_d=1, max_d=max_d, min_n=1, max_n=max_n, datatypes=('I', 'I', 'F'), log_amp=False,
                             int_widths=(16, 32)))
     D = len(spec['widths'])
@@ -85,9 +85,20 @@ def _case(draw):
                                                        if r * 32 >= spec['ranges'][j]]),
                                       st.integers(max(2, spec['ranges'][j] // 4), spec['ranges'][j] * 4)))
                        for j in sel]
+    signed = draw(st.sampled_from([False, False, True]))
+    if container == 'array' and signed and spec['datatype'] == 'I':
+        # more events than resolution levels happens with low-resolution detectors: make it happen here
+        for j in range(D):
+            if draw(st.booleans()):
+                spec['ranges'][j] = draw(st.integers(2, max(2, spec['n'])))
+        spec['specials'] = [[r_, c_, min(v_, spec['ranges'][c_] - 1)] for r_, c_, v_ in spec.get('specials', [])]
+    if container == 'array' and signed and spec['datatype'] == 'I' and 'res' in over:
+        over['res'] = [draw(st.integers(spec['ranges'][j], max(spec['ranges'][j], spec['n']))) if draw(st.booleans()) else r_
+                       for j, r_ in zip(sel, over['res'])]
     err = draw(st.sampled_from([None] * 20 + ['len_at', 'len_gain', 'len_res', 'scalar_for_list', 'array_no_at']))
     return dict(spec=spec, container=container, form=form, sel=sel, spell=spell, over=over, err=err,
-                seq=draw(st.sampled_from(['list', 'list', 'tuple', 'nparr'])),
+                signed=signed, neg_cells=[[draw(st.integers(0, 19)), draw(st.integers(0, 5))] for _ in range(3)],
+                seq=draw(st.sampled_from(['list', 'list', 'tuple', 'nparr'])), derived=draw(st.sampled_from([None, None, None, ['slice', 1], ['slice', 2], ['list', 1]])),
                 order_seed=draw(st.integers(0, 2 ** 16)))
 
 
@@ -143,14 +154,24 @@ def check(case, obs):
     import FlowCal.transform as tr
     spec = case['spec']
     D = len(spec['widths'])
-    d = build(spec)
+    d = build(spec) if not case.get('derived') else derived_from_used_parent(spec, case['derived'][1], case['derived'][0])
     names = list(d.channels)
     sel, form, over = case['sel'], case['form'], case['over']
     k = len(sel)
     is_array = case['container'] == 'array'
     data = np.asarray(d).copy() if is_array else d
+    x_over = None
     if is_array:
         data = data.astype(data.dtype.newbyteorder('='))
+        if case.get('signed') and spec['datatype'] == 'I':
+            # a plain signed-integer array with a few negative cells (formula still defined)
+            data = data.astype(np.int64)
+            for i, (r, c) in enumerate(case.get('neg_cells', [])):
+                if data.shape[0] and sel:
+                    c = sel[i % len(sel)]                      # negative values in the channels that get converted
+                    data[r % data.shape[0], c] = -1 - int(data[r % data.shape[0], c]) % 7
+            x_over = data.astype(np.float64)
+            obs.label('signed_array_with_negatives')
     chs = [_spell(j, sp, names, is_array) for j, sp in zip(sel, case['spell'])]
     seq = case.get('seq', 'list')
     chs_arg = chs
@@ -196,6 +217,8 @@ def check(case, obs):
     x = np.array(expand(spec), dtype=np.float64).reshape((-1, D))
     if spec['datatype'] == 'F':
         x = x.astype(np.float32).astype(np.float64)
+    if x_over is not None:
+        x = x_over
     res = np.asarray(out)
     if not obs.claim('shape_meta', res.shape == x.shape and res.dtype == np.float64,
                      lambda: 'result shape/dtype %r %r' % (res.shape, res.dtype)):
